@@ -316,7 +316,19 @@ def dead_source_cases ():
 EDGE = EDGE + [ E1 + [['--excitation-voltage', v]] + x + o for v in ('1.7e308+1.7e308j', '-1.5e308-1.5e308j', '1e308+1.6e308j')
                 for x in ([], [['--load', '1.7e308+1.7e308j'], ['--attach-load', '1,2']], [['--load', '1.7e308+1.7e308j'], ['--attach-load', '1,all']])
                 for o in ([], [['--option', 'none']]) ]
-EDGE = EDGE + pole_cases () + dead_source_cases ()
+def option_orders ():
+    """ every ordered selection of one to three of the four --option values, with and without a near-field grid """
+    import itertools
+    out = []
+    vals = ['far-field', 'far-field-absolute', 'near-field', 'none']
+    for k in (1, 2, 3):
+        for sel in itertools.permutations (vals, k):
+            for nf in ([], [['--near-field', '5,5,5,1,1,1,2,1,1']]):
+                out.append (E1 + nf + [['--option', v] for v in sel])
+    return out
+# end def option_orders
+
+EDGE = EDGE + pole_cases () + dead_source_cases () + option_orders ()
 
 def plan (tier, seed):
     n = 3000 if tier == 'quick' else 100000
